@@ -99,8 +99,14 @@ func (e *Enc) run() {
 	for _, fv := range f.FreeVars {
 		e.bindParam(fv, fv.Name(), fv.Type())
 		// a free variable is the address of a live variable cell of the enclosing function
-		if _, isPtr := fv.Type().Underlying().(*types.Pointer); isPtr {
+		if pt, isPtr := fv.Type().Underlying().(*types.Pointer); isPtr {
 			e.assumeG(tLt("0", e.vals[fv].T))
+			if immutableCapture(f, fv) {
+				// assigned once before any closure over it existed: no call changes what is read from it
+				if l := e.refLoc(e.vals[fv].T, pt.Elem()); l != nil && l.Kind == lCell {
+					e.privCells = append(e.privCells, privCell{heap: l.Heap, sort: fmt.Sprintf("(Array Int %s)", e.sortOf(pt.Elem())), ref: e.vals[fv].T})
+				}
+			}
 		}
 	}
 	e.worldAxioms()
@@ -128,7 +134,7 @@ func (e *Enc) run() {
 	// every at-clause must have found its anchor (a renamed callee or a removed statement must not pass silently)
 	if e.fc != nil && e.pass == 2 {
 		for ai, at := range e.fc.Ats {
-			if !e.atHit[ai] {
+			if !e.atHit[ai] && !at.Every {
 				e.curReach = tTrue
 				e.oblige("anchor", fmt.Sprintf("anchor:%s.%d", at.Anchor, ai), tFalse, token.NoPos, "contract anchor `at "+at.Anchor+"` matches no statement of the function")
 			}
